@@ -3,6 +3,7 @@ package main
 import (
 	"fmt"
 	"go/ast"
+	"go/constant"
 	"go/token"
 	"go/types"
 	"sort"
@@ -1481,5 +1482,57 @@ func skippedEffects(c *Check, rule string, fns map[*ssa.Function]bool) int {
 			}
 		})
 	}
+	return n
+}
+
+// pathCutsets (PATH-CUTSET): strings.Trim/TrimLeft/TrimRight take a *set* of
+// characters. A constant cutset of two or more different characters that
+// contains a path character ('.' or '/') — TrimLeft(name, "./") — removes every
+// leading dot and slash, not the prefix "./": ".shared/x.sysl" becomes
+// "shared/x.sysl", another file. Every call of the three functions in the
+// selected packages is an obligation; cutsets of white space, of one character
+// or without path characters are in order. A cutset that is not a constant is
+// not judged.
+func pathCutsets(c *Check, rule string, sel func(pkgPath string) bool) int {
+	p := c.P
+	n, scanned := 0, 0
+	for _, f := range p.RepoFuncs() {
+		if !sel(fnPkgPath(f)) || p.isGeneratedFile(p.fnFile(f)) || len(f.Blocks) == 0 {
+			continue
+		}
+		scanned++
+		k := 0
+		eachCall(f, func(cl ssa.CallInstruction) {
+			o := calleeObj(cl)
+			if o == nil || o.Pkg() == nil || o.Pkg().Path() != "strings" || (o.Name() != "Trim" && o.Name() != "TrimLeft" && o.Name() != "TrimRight") {
+				return
+			}
+			args := cl.Common().Args
+			if len(args) != 2 {
+				return
+			}
+			k++
+			key := fmt.Sprintf("%s|strings.%s#%d", fnName(f), o.Name(), k)
+			cs, ok := args[1].(*ssa.Const)
+			if !ok || cs.Value == nil || cs.Value.Kind() != constant.String {
+				c.Okf(rule, key, p.pos(cl.Pos()), "cutset is not a constant: not judged")
+				return
+			}
+			n++
+			set := constant.StringVal(cs.Value)
+			distinct := map[rune]bool{}
+			pathy := false
+			for _, r := range set {
+				distinct[r] = true
+				if r == '.' || r == '/' || r == '\\' {
+					pathy = true
+				}
+			}
+			c.Cond(!(pathy && len(distinct) >= 2), rule, key, p.pos(cl.Pos()),
+				fmt.Sprintf("cutset %q is one character, white space, or has no path character", set),
+				fmt.Sprintf("strings.%s with the cutset %q removes every leading/trailing character of that set, not the prefix/suffix %q: a name such as \".shared/x\" or \"../x\" loses its dots and names another file", o.Name(), set, set))
+		})
+	}
+	c.Okf(rule, "scan", "-", "%d functions scanned for strings.Trim* with a constant cutset: %d found and judged", scanned, n)
 	return n
 }
